@@ -290,7 +290,10 @@ macro_rules! impl_dec_to_bin {
                 debug_assert!(nbits <= $bin);
                 let fives = $Double::pow(5, $dec);
                 let denom = fives * 2;
-                let mut numer = val << ($bin - $dec + 1) >> ($bin - nbits);
+                let shifted = val << ($bin - $dec + 1);
+                let mut numer = shifted >> ($bin - nbits);
+                // bits dropped by the scaling lie strictly below a tie
+                let inexact = numer << ($bin - nbits) != shifted;
                 match round {
                     Round::Nearest => {
                         // Round up, then round back down if we had a tie and the result is odd.
@@ -309,7 +312,7 @@ macro_rules! impl_dec_to_bin {
                     }
                     Round::Floor => {}
                 }
-                let (mut div, tie) = (numer / denom, numer % denom == 0);
+                let (mut div, tie) = (numer / denom, numer % denom == 0 && !inexact);
                 if tie && div.is_odd() {
                     div -= 1;
                 }
@@ -347,9 +350,12 @@ impl DecToBin for u128 {
         let (val_lo, overflow) = hi_lo.overflowing_add(lo);
         let val_hi = if overflow { hi_hi + 1 } else { hi_hi };
         let (mut numer_lo, mut numer_hi) = (val_lo, val_hi);
+        // bits dropped by the scaling lie strictly below a tie
+        let mut inexact = false;
         match nbits.cmp(&(54 - 1)) {
             Ordering::Less => {
                 let shr = (54 - 1) - nbits;
+                inexact = numer_lo << (128 - shr) != 0;
                 numer_lo = (numer_lo >> shr) | (numer_hi << (128 - shr));
                 numer_hi >>= shr;
             }
@@ -392,6 +398,7 @@ impl DecToBin for u128 {
             Round::Floor => {}
         }
         let (mut div, tie) = div_tie(numer_hi, numer_lo, denom);
+        let tie = tie && !inexact;
         if tie && div.is_odd() {
             div -= 1;
         }
